@@ -11,8 +11,8 @@ machine over the text lines of a rendering, one action per loop iteration.
    every action is required.  Lemmas about Meaning (entry permutation, include splitting, unknown keys ignored,
    defaults independent of context, every injected fault is found) are checked on the same family.
 2. Sensitivity: each deviation of the code as it was found (ParseSizePanic, TrailingIgnored, HostQuoteLax) and a
-   few plausible bugs (routes reversed, first pattern only, threads 0, line - 1, default log level, ...) must be
-   refuted by TLC.
+   few plausible bugs (routes reversed, first pattern only, threads 0, line - 1, default log level, white space
+   collapsed inside quoted strings, ...) must be refuted by TLC.
 3. spec -> code: TLC prints every case with Meaning(ast); the harness writes each one under 5 (thorough: 12)
    seeded layouts (indentation, comments, blank lines, key order, include splitting into files under
    .work/C15, separators, non-ASCII mapping), loads it with the real parse_conf + Config::from_tree and compares
@@ -34,8 +34,8 @@ D = os.path.join(SPEC, "config")
 ACTIONS = ["P_FindSkip", "P_FindHit", "P_FindEof", "P_Eof", "P_Blank", "P_Open", "P_Close", "P_NoValue", "P_Value",
            "P_Include", "P_TrailBlank", "P_TrailJunk", "P_TrailEof", "T1", "T2", "T3", "T4", "T5"]
 DEVS = ["ParseSizePanic", "TrailingIgnored", "HostQuoteLax"]
-BUGS_QUICK = ["ReverseRoutes", "LineMinus1", "DefaultLogInfo"]
-BUGS = ["ReverseRoutes", "FirstPatternOnly", "Threads0Accepted", "LineMinus1", "DefaultLogInfo", "ErrFileMain", "LastTargetOnly"]
+BUGS_QUICK = ["ReverseRoutes", "LineMinus1", "CollapseWhitespace"]
+BUGS = ["ReverseRoutes", "FirstPatternOnly", "Threads0Accepted", "LineMinus1", "DefaultLogInfo", "ErrFileMain", "LastTargetOnly", "CollapseWhitespace"]
 TO = 3000
 
 
@@ -115,6 +115,79 @@ def run_replay(ctx, cfgbin, work, path):
 def run_all(ctx, cfgbin, work, thorough):
     tname = "thorough" if thorough else "quick"
 
+    # All TLC runs of steps 1-3 are independent of each other: they run side by side (<= 4 JVMs at a time).
+    dump = os.path.join(work, "graph.dot")
+    sens_jobs = [("dev", d) for d in DEVS] + [("bug", b) for b in (BUGS if thorough else BUGS_QUICK)]
+    specs = {
+        "mc": dict(cfg="MC_Config_%s.cfg" % tname, workers=6 if thorough else 4, heap="4g"),
+        # vacuity guard.  `-coverage 1` makes TLC re-evaluate the (large, constant) case table on every access and run
+        # out of memory, so the per-action counts are taken from the dumped state graph of the small family instead
+        # (edges are labelled with the action that produced them).
+        "cover": dict(cfg="MC_Config_cover.cfg", workers=2, heap="3g", dump=dump),
+        "live": dict(cfg="MC_Config_live.cfg", workers=2, heap="2g"),
+        "lemmas": dict(cfg="MC_Config_lemmas_%s.cfg" % tname, workers=2, heap="3g"),
+        "gen": dict(cfg="Gen_Config_%s.cfg" % tname, workers=1, heap="3g"),
+    }
+    for kind, name in sens_jobs:
+        specs["sens:" + name] = dict(cfg="MC_Config_%s_%s.cfg" % (kind, name), workers=2, heap="2g")
+
+    def one(key):
+        kw = dict(specs[key])
+        cfg = kw.pop("cfg")
+        return key, run_tlc("MC_Config.tla", cfg, D, timeout=TO, work_id="c15" + re.sub(r"\W", "", key), **kw)
+    order = ["mc", "lemmas", "gen", "cover", "live"] + ["sens:" + n for _, n in sens_jobs]
+    with ThreadPoolExecutor(max_workers=4) as ex:
+        res = dict(ex.map(one, order))
+
+    # 1. the model of the code against Meaning, on every case x layout
+    r = res["mc"]
+    ctx.add_tlc("model of parse_conf/from_tree vs Meaning, Dev={} (%s family)" % tname, r)
+    ctx.require_tlc_ok("MC_Config_%s" % tname, r)
+    r = res["cover"]
+    counts = {}
+    with open(dump, errors="replace") as f:
+        for line in f:
+            m = re.search(r'->.*label="(\w+)"', line)
+            if m:
+                counts[m.group(1)] = counts.get(m.group(1), 0) + 1
+    os.remove(dump)
+    r.coverage = {a: (c, c) for a, c in counts.items()}
+    ctx.add_tlc("vacuity guard: every action of the model is taken (edge labels of the dumped graph, small family)", r)
+    ctx.require_tlc_ok("MC_Config_cover", r)
+    ctx.require_cover("MC_Config_cover", r, ACTIONS)
+    r = res["live"]
+    ctx.add_tlc("the loader always terminates (liveness under weak fairness, small family)", r)
+    ctx.require_tlc_ok("MC_Config_live", r)
+    r = res["lemmas"]
+    ctx.add_tlc("lemmas: Meaning invariant under permutation / include splitting / unknown keys; defaults; faults found", r)
+    ctx.require_tlc_ok("MC_Config_lemmas_%s" % tname, r)
+
+    # 2. sensitivity of the model: every deviation and a few plausible bugs must be refuted
+    for kind, name in sens_jobs:
+        sr = res["sens:" + name]
+        ctx.add_tlc("sensitivity: Dev={%s} must violate Conforms/NoCrash" % name, sr)
+        if sr.violation != "invariant":
+            raise vlib.ToolError("model lost sensitivity: Dev={%s} no longer violates Conforms/NoCrash" % name)
+
+    # 3. vectors from TLC replayed on the real loader
+    g = res["gen"]
+    if g.violation or not g.prints:
+        raise vlib.ToolError("replay: TLC could not evaluate Meaning: %s" % g.out[-1500:])
+    ctx.add_tlc("Meaning of the %d replayed configuration(s)" % len(cases), g)
+    data = "".join(json.dumps(x) + "\n" for x in g.prints)
+    s = summary_of(run_bin(cfgbin, ["replay", work, "12"], stdin_data=data), "replay")
+    ctx.cov["evaluations"] += s["loads"]
+    ctx.cov["traces_validated_against_impl"] += s["loads"]
+    ctx.cov["distinct_nontrivial"] += s["nontrivial"]
+    ctx.sample({"replayed_cases": s["cases"], "loads": s["loads"], "mismatches": s["mismatches"]})
+    for m in s["first"][:5]:
+        ctx.violation(m["what"], {"kind": "config-vector", **m}, dev=attribute(m))
+    return ctx.finish()
+
+
+def run_all(ctx, cfgbin, work, thorough):
+    tname = "thorough" if thorough else "quick"
+
     # 1. the model of the code against Meaning, on every case x layout
     r = run_tlc("MC_Config.tla", "MC_Config_%s.cfg" % tname, D, workers=6, timeout=TO, work_id="c15mc", heap="4g")
     ctx.add_tlc("model of parse_conf/from_tree vs Meaning, Dev={} (%s family)" % tname, r)
@@ -149,7 +222,7 @@ def run_all(ctx, cfgbin, work, thorough):
         kind, name = job
         return job, run_tlc("MC_Config.tla", "MC_Config_%s_%s.cfg" % (kind, name), D, workers=2, timeout=TO,
                             work_id="c15s" + name, heap="2g")
-    with ThreadPoolExecutor(max_workers=3) as ex:
+    with ThreadPoolExecutor(max_workers=3 if thorough else 6) as ex:
         for (kind, name), sr in ex.map(sens, jobs):
             ctx.add_tlc("sensitivity: Dev={%s} must violate Conforms/NoCrash" % name, sr)
             if sr.violation != "invariant":
